@@ -5,8 +5,11 @@ package stack
 import (
 	"fmt"
 	"os"
+	"os/exec"
+	"path/filepath"
 	"sort"
 	"strings"
+	"syscall"
 	"testing"
 	"time"
 
@@ -311,6 +314,37 @@ func c18History(t *testing.T, res *common.Result, rng *common.Rng, idx int, extr
 	ensure(common.Pick(rng, []string{"g1", "g2"}), names[0], common.Pick(rng, []int32{0, 60}))
 	ensure("rest", names[1], common.Pick(rng, []int32{0, 60}))
 	waitShort()
+	// an accidental second start with the same IPC socket file (another gRPC port, and the same one)
+	// must not take the admin channel away from the running server
+	for _, samePort := range []bool{false, true} {
+		addr := fmt.Sprintf("127.0.0.1:%d", freePort(t))
+		stage := "second-instance:other-port"
+		if samePort {
+			addr, stage = srv.grpcAddr, "second-instance:same-port"
+		}
+		d2 := newInstanceDir(t)
+		second := exec.Command(serverBin, "--listen_address", addr, "--ipc_socket_file", srv.sock, "--state_file", filepath.Join(d2, "state.bin"))
+		second.Dir = d2
+		second.Env = cleanEnv()
+		sb := &syncBuf{}
+		second.Stdout, second.Stderr = sb, sb
+		second.SysProcAttr = &syscall.SysProcAttr{Setpgid: true, Pdeathsig: syscall.SIGKILL}
+		if err := second.Start(); err == nil {
+			exited := make(chan struct{})
+			go func() { second.Wait(); close(exited) }()
+			select {
+			case <-exited:
+				res.Count(stage + ":refused-to-start")
+			case <-time.After(1500 * time.Millisecond):
+				res.Count(stage + ":kept-running")
+			}
+			k.logf("second server instance started on %s with the same IPC socket file", addr)
+			k.checkList(stage)
+			second.Process.Kill()
+			<-exited
+			k.checkList(stage + ":after-it-ended")
+		}
+	}
 	listed, ok := k.checkList("final")
 	if !ok {
 		// keep going with what the tool lists: the unlock checks are about the listed holds
